@@ -205,3 +205,16 @@ func JS(v interface{}) string {
 	b, _ := json.Marshal(v)
 	return string(b)
 }
+
+// GoID returns the id of the calling goroutine (parsed from the stack header; harness use only:
+// calls without a context, such as Dirent.Qid, are attributed to the session call that runs them).
+func GoID() int64 {
+	var buf [64]byte
+	n := runtime.Stack(buf[:], false)
+	s := strings.TrimPrefix(string(buf[:n]), "goroutine ")
+	if i := strings.IndexByte(s, ' '); i > 0 {
+		id, _ := strconv.ParseInt(s[:i], 10, 64)
+		return id
+	}
+	return 0
+}
